@@ -33,7 +33,7 @@ ANCHORS = [
     ("tangelo/linq/target/target_cirq.py", "expectation_value_from_prepared_state", "cirq native expectation"),
     ("tangelo/linq/target/backend.py", "get_variance,get_standard_error,_get_variance_from_frequencies", "variance / standard error"),
 ]
-REQUIRED = {"cirq_native": 72, "cirq_freq_route_exact": 48, "generic_statevector_loop": 100, "generic_sampled": 8, "cirq_sampled": 16, "variance_exact": 50, "std_error_sampled": 10, "desired_meas_result": 20, "sympy": 3}
+REQUIRED = {"live_observations_total": 50, "cirq_native": 72, "cirq_freq_route_exact": 48, "generic_statevector_loop": 100, "generic_sampled": 8, "cirq_sampled": 16, "variance_exact": 50, "std_error_sampled": 10, "desired_meas_result": 20, "sympy": 3}
 BUDGET = {"quick": 240, "thorough": 2400}
 TOL = 1e-8
 
@@ -79,6 +79,7 @@ def cases(tier, seed):
     out += [{"sub": "oneterm", "i": i} for i in range(16 if tier == "quick" else 200)]
     # shot numbers beyond the sampler's internal chunk size (10**7): samples are accumulated over several chunks
     out = [{"sub": "bigshots", "i": i} for i in range(1 if tier == "quick" else 4)] + out
+    out.append({"sub": "repo_tests", "tier": tier})
     return out
 
 
@@ -326,5 +327,13 @@ def run_bigshots(case, ctx):
     ctx.nontrivial(("bigshots", gates, n_shots))
 
 
+def run_repo_tests(case, ctx):
+    """The repository's own tests as an additional workload: every observed call is compared with the reference model (vlib.livemon)."""
+    from vlib.harness import repo_tests_case
+    repo_tests_case(case, ctx, ['tangelo/linq/tests/test_simulator.py', 'tangelo/algorithms/variational/tests/test_vqe_solver.py', '-k', 'h2 or expect'],
+                    ['tangelo/linq/tests', 'tangelo/toolboxes/ansatz_generator/tests', 'tangelo/toolboxes/measurements/tests', 'tangelo/algorithms/variational/tests/test_vqe_solver.py'],
+                    only=('expectation_',), semantic=('C02',))
+
+
 def run_case(case, ctx):
-    {"pair": run_pair, "sympy": run_sympy, "oneterm": run_oneterm, "bigshots": run_bigshots}[case["sub"]](case, ctx)
+    {"pair": run_pair, "sympy": run_sympy, "oneterm": run_oneterm, "bigshots": run_bigshots, "repo_tests": run_repo_tests}[case["sub"]](case, ctx)
